@@ -140,6 +140,8 @@ def live(sid, I, T, pattern, window_intervals=10):
     npings = window_intervals + 3
     if pattern == "half":
         steps.append({"a": "rule", "rule": {"on": "Ping", "do": "delay", "arg": T // 2}})
+    elif pattern == "slow":     # I < T: every pong takes 2T/3 (longer than the interval, well within the timeout)
+        steps.append({"a": "rule", "rule": {"on": "Ping", "do": "delay", "arg": 2 * T // 3}})
     elif pattern in ("alt", "alt2"):
         for n in range(npings, 0, -1):
             if n % 2 == (0 if pattern == "alt" else 1):
@@ -302,6 +304,10 @@ def run():
         for k, fails in ([(1, 1)] if quick else [(0, 1), (1, 1), (1, 2), (3, 1)]):
             scs.append(dial_fail("C15/dialfail/%d-%d/k%d-f%d" % (I, T, k, fails), I, T, k, fails))
         scs.append(bping_burst("C15/bping/%d-%d/16" % (I, T), I, T, 16))
+    # I < T with pongs slower than the interval but in time: the next ping is due before the previous pong arrived
+    scs.append(live("C15/live/100-600/slow", 100, 600, "slow", window_intervals=24))
+    if not quick:
+        scs.append(live("C15/live/150-450/slow", 150, 450, "slow", window_intervals=20))
     trace = ctx.run_scenarios(scs, "c15", par=4)
     # announcements: not timing-sensitive, stop after the handshake
     ann = [((2000, 1000), (2000, 1000)), ((2500, 1500), (2500, 1500)), ((10000, 1000), (10000, 1000)), (None, (10000, 1000)),
